@@ -152,9 +152,19 @@ def algorithms_agree(ctx, n):
                 continue
             dd = compare_results(ref, outs[a]["res"])
             if dd:
-                bad += 1
-                ctx.violation({"kind": "E:algorithms", "gkf": txt, "algorithms": ["gso", a], "differences": dd[:10]},
-                              "gso and %s give different adjustments: %s" % (a, dd[0]))
+                # recorded finding (shared with C20): on a network whose datum is insufficient every algorithm removes the points of the
+                # dependent unknowns it meets last in its own pivoting / ordering; recognised by different sets of removed points
+                key = None
+                if ill and dd[0].startswith(("equations:", "unknowns:", "coord_summary:", "adjusted point sets differ")):
+                    rem = {}
+                    for x in ("gso", a):
+                        t = outs[x]["run"].out + outs[x]["run"].err
+                        rem[x] = (outs[x]["res"]["equations"], outs[x]["res"]["unknowns"])
+                    if rem["gso"] != rem[a]:
+                        key = "%s:removed-points-depend-on-algorithm" % ctx.pid
+                if ctx.violation({"kind": "E:algorithms", "gkf": txt, "algorithms": ["gso", a], "differences": dd[:10]},
+                                 "gso and %s give different adjustments: %s" % (a, dd[0]), key=key):
+                    bad += 1
                 break
         if bad >= 3:
             break
